@@ -740,7 +740,10 @@ impl LZDiff {
 
     /// Check if byte is a literal
     fn is_literal(&self, c: u8) -> bool {
-        (b'A'..=b'A' + 20).contains(&c) || c == b'!'
+        // Literals are emitted as b'A' + symbol code.  The input table produces codes
+        // 0..=15 (IUPAC), 30 (any other letter) and 32, so the literal class must reach
+        // b'A' + 32; none of the match/N-run bytes (digits, ',', '.', '-', 30) lie in it.
+        (b'A'..=b'A' + 32).contains(&c) || c == b'!'
     }
 
     /// Decode a literal
